@@ -135,7 +135,10 @@ fn expectation(e: &Value) -> Offered {
 thread_local! { static PANICKED: Cell<bool> = const { Cell::new(false) }; }
 static ENV_LOCK: Mutex<()> = Mutex::new(());
 
-const PATIENCE: Duration = Duration::from_millis(5000); // per step, from the moment the step was applied
+// Per step, from the moment the step was applied.  The watcher sleeps 0.8-1.6 s after an error (reset, 410, an event it
+// cannot deserialize), 1.6-3.2 s after the next one in a row, 3.2-6.4 s after a third; while it sleeps after a reset / 410
+// the mock is not `synced` and the wait is extended anyway, but an undeserializable event leaves the connection up.
+const PATIENCE: Duration = Duration::from_millis(12000);
 const AFTER_SYNC: Duration = Duration::from_millis(2000); // ... and at least this long after the mock had delivered everything
 const HARD_CAP: Duration = Duration::from_millis(30000);
 const STEP_WAIT: Duration = Duration::from_millis(20000); // waiting for the client to (re)connect / ask for the LIST
